@@ -115,8 +115,26 @@ def ceil32_pred():
     return (not bad, f"math.ceil(n/32) != exact ceiling at {bad[:5]}")
 
 
+def same_key_history_pred(key, ikm1, ikm2, info):
+    """ONE interpreter: consecutive HKDF calls under the SAME key (salt / PRK), with nothing keyed differently in between —
+    extract, extract; extract, expand; expand, expand; expand, extract. A keyed-HMAC object reused between calls shows only here."""
+    from py_ecc.bls import hash as Hm
+    bad = []
+    seq = [("extract", ikm1), ("extract", ikm2), ("expand", 48), ("expand", 80), ("extract", ikm1), ("expand", 32), ("extract", b"")]
+    for i, (op, arg) in enumerate(seq):
+        if op == "extract":
+            got, want = Hm.hkdf_extract(key, arg), O.rfc_hkdf_extract(key, arg)
+        else:
+            got, want = Hm.hkdf_expand(key, info, arg), O.rfc_hkdf_expand(key, info, arg)
+        if got != want:
+            bad.append(f"step {i} {op}")
+    return (not bad, f"HKDF calls under one key of {len(key)} bytes in a row: {bad}")
+
+
 def predicates(rng, tier, only=None):
     ps = [Pred("ceil-exact", ceil32_pred, ())]
+    for klen in (0, 32, 33, 64, 65):
+        ps.append(Pred("hkdf-rfc5869", same_key_history_pred, (rb(rng, klen), rb(rng, 17), rb(rng, 40), rb(rng, 9))))
     n = 12 if tier == "quick" else 120
     for _ in range(n):
         ps.append(Pred("hkdf-rfc5869", hkdf_pred, (rb(rng, rng.randrange(0, 301)), rb(rng, rng.randrange(0, 301)),
